@@ -85,6 +85,28 @@ def run(src, tier, seed):
             res.ok(r2, '%s: mkAnd(fla, learnEqTransitivity(fla))' % g['name'])
         else:
             res.bad(r2, 'learnt-fact-not-conjoined:%s' % g['name'].split('::')[-1], fx.loc(g, c.get('ln')), '%s uses the result of learnEqTransitivity other than as a conjunct of the formula' % g['name'])
+    # ---- purification is the last step that may see mixed terms
+    r4 = res.rule('rewrites-before-purification', 'in every preprocessing function that purifies (separates uninterpreted from arithmetic subterms), the rewriting steps that introduce new '
+                  'atoms over existing subterms (rewriteDistincts, rewriteDivMod, ...: calls named rewrite*) come before purify: a definition such as t = n*d + m introduced afterwards for an '
+                  'uninterpreted dividend t is never purified, the arithmetic solver does not see it and the formula handed to the search is weaker than the asserted one', floor=1)
+    from prims import mname
+    n_p = 0
+    for g in fx.F.values():
+        if not g.get('body') or not g['name'].startswith('opensmt::'):
+            continue
+        calls = [x for x in fwalk(g) if x.get('k') == 'call' and not x.get('as')]
+        pur = [i for i, x in enumerate(calls) if mname(x) == 'purify']
+        if not pur or g['name'].split('::')[-1] == 'purify':
+            continue
+        n_p += 1
+        late = sorted({mname(x) for x in calls[pur[0] + 1:] if mname(x).startswith('rewrite')})
+        if late:
+            res.bad(r4, 'rewrite-after-purify:%s' % g['name'].split('::')[-1], fx.loc(g), '%s calls %s after purify: the atoms these rewrites introduce over uninterpreted subterms stay mixed' % (g['name'], late))
+        else:
+            res.ok(r4, '%s: %s before purify' % (g['name'].replace('opensmt::', ''), sorted({mname(x) for x in calls[:pur[0]] if mname(x).startswith('rewrite')})))
+    if n_p == 0:
+        raise AnalysisBroken('no preprocessing function calls purify any more')
+
     # ---- generic: a per-frame summary computed in a loop must summarise every element (found by the first C13 seed in MainSolver::simplifyFormulas)
     import generic
     r3 = res.rule('loop-summaries-accumulate', 'no Boolean that summarises the iterations of a loop (declared before it, read after it) is plainly overwritten in each iteration from the current element; '
